@@ -586,6 +586,16 @@ type TCPConn struct {
 	BytesOut int
 	Arrived  int // bytes that reached this endpoint's receive buffer
 	nextArr  int64 // arrival instant of the last byte sent so far (stream order is preserved)
+	// flow control: a writer may have at most wnd bytes outstanding (sent and not yet consumed
+	// by the peer's application); 0 = no limit. consumed counts what this end's application took.
+	wnd      int
+	consumed int
+	wdl      time.Time
+	wnotify  chan struct{}
+	paused   bool   // scripted endpoint that has stopped reading: arrivals queue in in.buf
+	outPend    []byte // coalescing: written at this instant, not yet cut into segments
+	flushSched bool
+	flushedOff int
 }
 
 // SetScripted turns the endpoint into a scripted one (callbacks instead of a receive buffer).
@@ -608,8 +618,8 @@ func (c *TCPConn) RemoteAddr() net.Addr { return c.raddr }
 func (c *TCPConn) Peer() *TCPConn       { return c.peer }
 
 func (n *Net) newConnPair(roleA, roleB string, a, b *net.TCPAddr) (*TCPConn, *TCPConn) {
-	ca := &TCPConn{N: n, Role: roleA, laddr: a, raddr: b, notify: make(chan struct{}, 1)}
-	cb := &TCPConn{N: n, Role: roleB, laddr: b, raddr: a, notify: make(chan struct{}, 1)}
+	ca := &TCPConn{N: n, Role: roleA, laddr: a, raddr: b, notify: make(chan struct{}, 1), wnotify: make(chan struct{}, 1)}
+	cb := &TCPConn{N: n, Role: roleB, laddr: b, raddr: a, notify: make(chan struct{}, 1), wnotify: make(chan struct{}, 1)}
 	ca.peer, cb.peer = cb, ca
 	n.mu.Lock()
 	ca.Name = n.nameLocked(a.IP, a.Port) + ">" + n.nameLocked(b.IP, b.Port)
@@ -619,6 +629,7 @@ func (n *Net) newConnPair(roleA, roleB string, a, b *net.TCPAddr) (*TCPConn, *TC
 	n.register(ca.Info)
 	n.register(cb.Info)
 	n.mu.Unlock()
+	ca.wnd, cb.wnd = ca.windowFor(), cb.windowFor()
 	if n.Obs != nil {
 		n.Obs.SockOpen(ca.Info)
 		n.Obs.SockOpen(cb.Info)
@@ -775,7 +786,9 @@ func (c *TCPConn) read(p []byte) (int, error) {
 			copy(p, c.in.buf[:n])
 			c.in.buf = c.in.buf[n:]
 			c.BytesIn += n
+			c.consumed += n
 			c.mu.Unlock()
+			c.peer.wakeWriter()
 			if c.N.Obs != nil {
 				c.N.Obs.TCPRead(c, p[:n])
 			}
@@ -808,7 +821,10 @@ func (c *TCPConn) Write(p []byte) (int, error) {
 	scripted := c.isScripted()
 	if !scripted {
 		c.N.K.YieldT("sock:"+c.Role+":Write", c.Name, fmt.Sprintf("%016x", HashStr(string(p))))
-		if do, ok := c.N.ioFault(c.Role, "Write"); ok && do == "error" {
+		if do, ok := c.N.ioFault(c.Role, "Write", c.Name+">"+akey(c.raddr.IP, c.raddr.Port)); ok && do == "error" {
+			if c.Role == "listener-conn" && c.N.Obs != nil {
+				c.N.Obs.TCPWrite(c, p) // the server did act; only the bytes are lost
+			}
 			return 0, errInjected
 		}
 	}
@@ -821,6 +837,10 @@ func (c *TCPConn) Write(p []byte) (int, error) {
 		c.mu.Unlock()
 		return 0, &net.OpError{Op: "write", Net: "tcp", Err: syscall.EPIPE}
 	}
+	if c.wnd > 0 && !scripted && !c.N.K.Free {
+		c.mu.Unlock()
+		return c.writeWindowed(p)
+	}
 	off := c.wrote
 	c.wrote += len(p)
 	c.BytesOut += len(p)
@@ -829,6 +849,150 @@ func (c *TCPConn) Write(p []byte) (int, error) {
 		c.N.Obs.TCPWrite(c, p)
 	}
 	data := append([]byte(nil), p...)
+	if c.coalesces() && !c.N.K.Free {
+		// everything written on this connection at one instant leaves as one piece of stream,
+		// which is then cut by the plan's pattern without regard to where the writes ended:
+		// a read can end in the middle of a frame that follows a whole one
+		c.mu.Lock()
+		c.outPend = append(c.outPend, data...)
+		sched := c.flushSched
+		c.flushSched = true
+		c.mu.Unlock()
+		if !sched {
+			c.N.K.At(c.N.K.Now(), "zflush:"+c.Name, c.flush)
+		}
+		return len(p), nil
+	}
+	c.send(data, off)
+	return len(p), nil
+}
+
+// writeWindowed: the peer's application is slow. Bytes leave as the window opens; the call
+// blocks while it is shut and ends early, with what it managed to write, when the write
+// deadline passes or the connection is closed under it.
+func (c *TCPConn) writeWindowed(p []byte) (int, error) {
+	written := 0
+	var err error
+	for written < len(p) {
+		c.mu.Lock()
+		if c.closed || c.wfin {
+			c.mu.Unlock()
+			err = net.ErrClosed
+			break
+		}
+		if c.in.rst {
+			c.mu.Unlock()
+			err = &net.OpError{Op: "write", Net: "tcp", Err: syscall.EPIPE}
+			break
+		}
+		c.peer.mu.Lock()
+		room := c.wnd - (c.wrote - c.peer.consumed)
+		c.peer.mu.Unlock()
+		if room > 0 {
+			n := len(p) - written
+			if n > room {
+				n = room
+			}
+			off := c.wrote
+			c.wrote += n
+			c.BytesOut += n
+			c.mu.Unlock()
+			c.send(append([]byte(nil), p[written:written+n]...), off)
+			written += n
+			continue
+		}
+		wdl := c.wdl
+		c.mu.Unlock()
+		c.N.K.Stats.Fault("stream:window-full")
+		if wdl.IsZero() {
+			<-c.wnotify
+		} else {
+			d := time.Until(wdl)
+			if d <= 0 {
+				err = errTimeout
+				break
+			}
+			t := time.NewTimer(d)
+			select {
+			case <-c.wnotify:
+				t.Stop()
+			case <-t.C:
+			}
+		}
+		// woken by the reader's goroutine: hand control back to the driver before going on
+		c.N.K.Yield("sock:"+c.Role+":Write", c.Name)
+	}
+	if c.N.Obs != nil && written > 0 && (err == nil || err == errTimeout) {
+		// what really went out: a write that a deadline cut short leaves a torn frame on a
+		// stream that stays in use
+		c.N.Obs.TCPWrite(c, p[:written])
+	}
+	return written, err
+}
+
+func (c *TCPConn) wakeWriter() {
+	select {
+	case c.wnotify <- struct{}{}:
+	default:
+	}
+}
+
+func (c *TCPConn) windowFor() int {
+	for i := range c.N.K.Plan.Streams {
+		s := &c.N.K.Plan.Streams[i]
+		if matchStr(s.Conn, c.Name) {
+			return s.Window
+		}
+	}
+	return 0
+}
+
+// Pause / Resume: a scripted endpoint stops / resumes reading.
+func (c *TCPConn) Pause() {
+	c.mu.Lock()
+	c.paused = true
+	c.mu.Unlock()
+}
+
+func (c *TCPConn) Resume() {
+	c.mu.Lock()
+	c.paused = false
+	b := c.in.buf
+	c.in.buf = nil
+	c.BytesIn += len(b)
+	c.consumed += len(b)
+	onData := c.OnData
+	c.mu.Unlock()
+	c.peer.wakeWriter()
+	if len(b) > 0 && onData != nil {
+		onData(c, b)
+	}
+}
+
+func (c *TCPConn) coalesces() bool {
+	for i := range c.N.K.Plan.Streams {
+		s := &c.N.K.Plan.Streams[i]
+		if matchStr(s.Conn, c.Name) {
+			return s.Coalesce
+		}
+	}
+	return false
+}
+
+// flush sends what the writes of this instant have queued.
+func (c *TCPConn) flush() {
+	c.mu.Lock()
+	data, off := c.outPend, c.flushedOff
+	c.outPend, c.flushSched = nil, false
+	c.flushedOff += len(data)
+	c.mu.Unlock()
+	if len(data) > 0 {
+		c.send(data, off)
+	}
+}
+
+// send cuts data (stream offset off) into segments and schedules their arrival.
+func (c *TCPConn) send(data []byte, off int) {
 	cuts, _ := c.cutsFor()
 	lat := c.N.latency(c.laddr.IP, c.raddr.IP, c.Name)
 	k := c.N.K
@@ -849,7 +1013,6 @@ func (c *TCPConn) Write(p []byte) (int, error) {
 		peer := c.peer
 		k.At(c.arrivalSlot(lat+1), fmt.Sprintf("seg:%s@%012d", c.Name, off+i), func() { peer.arrive(chunk) })
 	}
-	return len(p), nil
 }
 
 // arrivalSlot returns a strictly increasing arrival instant for the next thing sent.
@@ -870,10 +1033,17 @@ func (c *TCPConn) arrive(b []byte) {
 		c.mu.Unlock()
 		return
 	}
+	if c.Scripted && c.paused {
+		c.in.buf = append(c.in.buf, b...) // the application is not reading: the bytes wait (and fill the window)
+		c.mu.Unlock()
+		return
+	}
 	if c.Scripted {
 		c.BytesIn += len(b)
+		c.consumed += len(b)
 		onData := c.OnData
 		c.mu.Unlock()
+		c.peer.wakeWriter()
 		if onData != nil {
 			onData(c, b)
 		}
@@ -894,6 +1064,7 @@ func (c *TCPConn) arriveFIN(rst bool) {
 	}
 	scripted, onEOF := c.Scripted, c.OnEOF
 	c.mu.Unlock()
+	c.wakeWriter()
 	if scripted {
 		if onEOF != nil {
 			onEOF(c, rst)
@@ -914,6 +1085,7 @@ func (c *TCPConn) Close() error {
 
 // CloseWrite sends FIN but keeps reading (half close).
 func (c *TCPConn) CloseWrite() error {
+	c.flush()
 	c.mu.Lock()
 	if c.closed || c.wfin {
 		c.mu.Unlock()
@@ -928,6 +1100,7 @@ func (c *TCPConn) CloseWrite() error {
 }
 
 func (c *TCPConn) closeHow(rst bool) error {
+	c.flush() // queued bytes leave before the FIN
 	c.mu.Lock()
 	already := c.closed
 	c.closed = true
@@ -960,10 +1133,14 @@ func (c *TCPConn) closeHow(rst bool) error {
 		c.N.K.At(c.arrivalSlot(lat+2000000), "fin:"+c.Name, func() { peer.arriveFIN(isRst) })
 	}
 	c.wakeup()
+	c.wakeWriter()
 	return nil
 }
 
-func (c *TCPConn) SetDeadline(t time.Time) error { return c.SetReadDeadline(t) }
+func (c *TCPConn) SetDeadline(t time.Time) error {
+	_ = c.SetWriteDeadline(t)
+	return c.SetReadDeadline(t)
+}
 func (c *TCPConn) SetReadDeadline(t time.Time) error {
 	c.mu.Lock()
 	c.rdl = t
@@ -971,7 +1148,13 @@ func (c *TCPConn) SetReadDeadline(t time.Time) error {
 	c.wakeup()
 	return nil
 }
-func (c *TCPConn) SetWriteDeadline(time.Time) error { return nil }
+func (c *TCPConn) SetWriteDeadline(t time.Time) error {
+	c.mu.Lock()
+	c.wdl = t
+	c.mu.Unlock()
+	c.wakeWriter()
+	return nil
+}
 
 // OpenSockets lists what is still open, by role prefix.
 func (n *Net) OpenSockets() []*SockInfo {
